@@ -87,6 +87,9 @@ pub struct C17 {
     pub ctx_decoys: bool,
     /// how the command line is spelled (0 = short options after the positionals; see `restyle`)
     pub arg_style: u64,
+    /// output faults produced by the kernel itself rather than by the shim (a cross-check of the
+    /// shim): "" | "devfull" (-o /dev/full) | "fsize=N" (RLIMIT_FSIZE = N with SIGXFSZ ignored)
+    pub kernel_fault: String,
 }
 
 fn fault_to_json(f: &Fault) -> Value {
@@ -139,7 +142,7 @@ impl C17 {
             "fault": fault_to_json(&self.fault), "clock": self.clock, "rand": self.rand, "io_plan": self.io_plan,
             "prior_crash": self.prior_crash.map(|(a, b)| json!([a, b])),
             "chained_from": self.chained_from,
-            "out_stale": self.out_stale, "ctx_decoys": self.ctx_decoys, "arg_style": self.arg_style,
+            "out_stale": self.out_stale, "ctx_decoys": self.ctx_decoys, "arg_style": self.arg_style, "kernel_fault": self.kernel_fault,
         })
     }
     pub fn from_json(v: &Value) -> Result<C17, String> {
@@ -169,6 +172,7 @@ impl C17 {
             out_stale: v["out_stale"].as_bool().unwrap_or(false),
             ctx_decoys: v["ctx_decoys"].as_bool().unwrap_or(false),
             arg_style: v["arg_style"].as_u64().unwrap_or(0),
+            kernel_fault: v["kernel_fault"].as_str().unwrap_or("").to_string(),
         })
     }
 }
@@ -479,7 +483,12 @@ pub fn generate(rng: &Rng, world: &World, tier: &str) -> C17 {
     let out_stale = out.is_some() && out.as_deref() != Some("context.zip") && r.chance(1, 4);
     let ctx_decoys = with_ctx && r.chance(1, 3);
     let arg_style = r.weighted(&[6, 2, 2, 2, 2, 1, 1]) as u64;
-    C17 { format, model_text, formula_file, print, out, ctx, fault, clock, rand: r.next_u64(), io_plan, prior_crash, chained_from, out_stale, ctx_decoys, arg_style }
+    let kernel_fault = if out.is_some() && out.as_deref() != Some("context.zip") && fault == Fault::None && io_plan.is_empty() && prior_crash.is_none() && r.chance(1, 8) {
+        if r.chance(1, 3) { "devfull".to_string() } else { format!("fsize={}", r.range(0, 1500)) }
+    } else {
+        String::new()
+    };
+    C17 { format, model_text, formula_file, print, out, ctx, fault, clock, rand: r.next_u64(), io_plan, prior_crash, chained_from, out_stale, ctx_decoys, arg_style, kernel_fault }
 }
 
 // ---------------------------------------------------------------------------------------------
@@ -571,9 +580,27 @@ struct RunDir {
 }
 
 fn run_cli(rd: &RunDir, args: &[String], clock: &str, rand: u64, plan: &str) -> Result<CliOut, String> {
+    run_cli_limited(rd, args, clock, rand, plan, None)
+}
+
+/// `fsize`: the kernel's own file-size limit for the child (RLIMIT_FSIZE, SIGXFSZ ignored, so that a
+/// write beyond the limit is cut short and the next one fails with EFBIG).
+fn run_cli_limited(rd: &RunDir, args: &[String], clock: &str, rand: u64, plan: &str, fsize: Option<u64>) -> Result<CliOut, String> {
+    use std::os::unix::process::CommandExt;
     let bin = std::env::var("VERIF_CLI_BIN").unwrap_or_else(|_| "/verif/target/repo/release/hctl-model-checker".to_string());
     let _ = std::fs::remove_file(&rd.log);
-    let out = std::process::Command::new(&bin)
+    let mut cmd = std::process::Command::new(&bin);
+    if let Some(n) = fsize {
+        unsafe {
+            cmd.pre_exec(move || {
+                libc::signal(libc::SIGXFSZ, libc::SIG_IGN);
+                let lim = libc::rlimit { rlim_cur: n, rlim_max: n };
+                libc::setrlimit(libc::RLIMIT_FSIZE, &lim);
+                Ok(())
+            });
+        }
+    }
+    let out = cmd
         .args(args)
         .current_dir(&rd.dir)
         .env("VERIF_RAND", rand.to_string())
@@ -1092,9 +1119,10 @@ pub fn check(world: &World, sc: &C17, sandbox: &str) -> Report {
             Some(name) => (format!("{dir}/{name}"), format!("{dir}/{name}")),
             None => (o.clone(), format!("{dir}/{o}")),
         };
+        let (arg, abs) = if sc.kernel_fault == "devfull" { ("/dev/full".to_string(), "/dev/full".to_string()) } else { (arg, abs) };
         args.push("-o".to_string());
         args.push(arg);
-        if sc.out_stale && o != "context.zip" {
+        if sc.out_stale && o != "context.zip" && sc.kernel_fault != "devfull" {
             // a previous, larger run wrote to the same path
             if let Some(parent) = std::path::Path::new(&abs).parent() {
                 let _ = std::fs::create_dir_all(parent);
@@ -1115,7 +1143,8 @@ pub fn check(world: &World, sc: &C17, sandbox: &str) -> Report {
     args.push("-p".to_string());
     args.push(sc.print.clone());
     // --- the run -----------------------------------------------------------------------------
-    let o = match run_cli(&rd, &restyle(&args, sc.arg_style), &sc.clock, sc.rand, &sc.io_plan) {
+    let fsize: Option<u64> = sc.kernel_fault.strip_prefix("fsize=").and_then(|n| n.parse().ok());
+    let o = match run_cli_limited(&rd, &restyle(&args, sc.arg_style), &sc.clock, sc.rand, &sc.io_plan, fsize) {
         Ok(o) => o,
         Err(e) => {
             rep.skipped = Some(e);
@@ -1155,12 +1184,18 @@ pub fn check(world: &World, sc: &C17, sandbox: &str) -> Report {
         fnv1a(o.stdout.replace(&dir, "$RUN").as_bytes())
     ));
     let how = format!("`hctl-model-checker {}` (clock {}, io plan [{}])", shown_args.join(" "), sc.clock, sc.io_plan);
-    let hard_fault = fired_faults.iter().any(|(n, _)| !matches!(n.as_str(), "fault_short_write" | "fault_short_read" | "fault_clock_backward"));
+    // a kernel-made output fault may or may not have hit (it depends on the archive's size): the run
+    // is judged like one with a hard fault - an error is acceptable, a claimed success must be correct
+    let kernel_fault = !sc.kernel_fault.is_empty() && sc.out.is_some();
+    if kernel_fault {
+        rep.probe(if sc.kernel_fault == "devfull" { "kernel_fault_dev_full" } else { "kernel_fault_rlimit_fsize" }, 1);
+    }
+    let hard_fault = kernel_fault || fired_faults.iter().any(|(n, _)| !matches!(n.as_str(), "fault_short_write" | "fault_short_read" | "fault_clock_backward"));
     let write_fault_only = hard_fault && fired_faults.iter().all(|(n, _)| matches!(n.as_str(), "fault_short_write" | "fault_short_read" | "fault_clock_backward" | "fault_eio_write" | "fault_enospc" | "fault_efbig" | "fault_eio_close" | "fault_eio_seek" | "fault_eintr"));
     // crashes: always judged, except under faults on the *output* file (the statement names
     // unreadable inputs, invalid formulae and missing labels)
     if let Some(c) = crashed(&o) {
-        let output_fault = write_fault_only && sc.out.is_some() && o.counters[4] > 0;
+        let output_fault = kernel_fault || (write_fault_only && sc.out.is_some() && o.counters[4] > 0);
         if output_fault {
             rep.probe("crash_under_output_fault", 1);
         } else {
@@ -1255,7 +1290,7 @@ pub fn check(world: &World, sc: &C17, sandbox: &str) -> Report {
     // --- bounded liveness: a fault-free re-run with valid inputs must succeed completely ---------
     // (when the bundle is updated in place, a faulty run has legitimately destroyed the context)
     let in_place = sc.out.as_deref() == Some("context.zip");
-    if (hard_fault || ctx_damaged) && !expect_message && !in_place {
+    if (hard_fault || ctx_damaged) && !expect_message && !in_place && sc.kernel_fault != "devfull" {
         if let Some((r, _)) = &refr {
             if ctx_damaged {
                 // repair the context: without -e if the formulae are plain, else skip
@@ -1338,6 +1373,7 @@ pub fn shrinks(sc: &C17) -> Vec<C17> {
     push(&|s| s.fault = Fault::None);
     push(&|s| s.out_stale = false);
     push(&|s| s.arg_style = 0);
+    push(&|s| s.kernel_fault = String::new());
     push(&|s| s.ctx_decoys = false);
     if sc.io_plan.contains(',') {
         for part in sc.io_plan.split(',') {
